@@ -95,9 +95,9 @@ def tasks(tier, seed):
     for h in shr:  # restarts that halve the step size, blocks longer than the remaining interval included
         T.append(('hist',) + h + ([], True))
     # two-level runs (the multi-level stage functions carry the restarts / step-size changes too)
-    for h, o in ([((2, 1, 3, False, True), {'shrink': False, 'NL': 2}), ((2, 1, 3, False, True), {'shrink': True, 'NL': 2})] if quick else
+    for h, o in ([((2, 1, 3, False, True), {'shrink': False, 'NL': 2}), ((2, 1, 3, False, True), {'shrink': True, 'NL': 2}), ((2, 1, 3, False, True), {'shrink': True, 'NL': 2, 'fine_only_dt': True}), ((1, 1, 3, False, True), {'shrink': True, 'NL': 2, 'fine_only_dt': True})] if quick else
                  [((2, 2, 4, False, True), {'shrink': False, 'NL': 2}), ((3, 1, 4, False, True), {'shrink': True, 'NL': 2}), ((2, 2, 4, True, True), {'shrink': False, 'NL': 2}),
-                  ((3, 1, 4, False, True), {'shrink': False, 'NL': 2})]):
+                  ((3, 1, 4, False, True), {'shrink': False, 'NL': 2}), ((2, 1, 4, False, True), {'shrink': True, 'NL': 2, 'fine_only_dt': True}), ((3, 1, 4, True, True), {'shrink': True, 'NL': 2, 'fine_only_dt': True})]):
         T.append(('hist',) + h + ([], o))
     # restarts that change the step size with the shipped InterpolateBetweenRestarts controller loaded; retry budget exhausted with and without a crash
     for h in [(1, 1, 3, False, False), (1, 1, 3, False, True), (2, 1, 3, False, False)]:
@@ -892,8 +892,8 @@ class Inject(ConvergenceController):
                 if S.status.restart:
                     H['granted'] = H.get('granted', 0) + 1  # shrinking histories: at most two restart requests per run (bounds the path count)
                 if S.status.restart and H['shrink']:
-                    for L in S.levels:  # a rejected step proposes half its step size (exactly representable)
-                        L.status.dt_new = L.params.dt / 2
+                    for L in (S.levels[:1] if H.get('fine_only_dt') else S.levels):  # a rejected step proposes half its step size (exactly representable);
+                        L.status.dt_new = L.params.dt / 2                               # on the finest level only, as the shipped Adaptivity does, or on all levels
 
 
 class InjectEarly(Inject):
@@ -963,6 +963,7 @@ def hist_interp(shrink):
 
 
 def hist_run(c, NP, MAXR, NSTEPS, FIRST, CRASH, extra_hooks=(), shrink=False):
+    shrink_opts = shrink
     interp = hist_interp(shrink)
     conv = hist_conv(shrink)
     shrink, NL = hist_opts(shrink)
@@ -972,6 +973,7 @@ def hist_run(c, NP, MAXR, NSTEPS, FIRST, CRASH, extra_hooks=(), shrink=False):
     H['maxr'] = MAXR
     H['shrink'] = shrink
     H['granted'] = 0
+    H['fine_only_dt'] = isinstance(shrink_opts, dict) and bool(shrink_opts.get('fine_only_dt'))
     # the restart mode is given in the description, so that the REAL BasicRestarting.dependencies configures the step-size spreader for it
     extra_cc = {(InjectConv if conv else InjectEarly if interp else Inject): {}, BasicRestartingNonMPI: {'max_restarts': MAXR, 'restart_from_first_step': FIRST, 'crash_after_max_restarts': CRASH}}
     if interp:
@@ -1065,7 +1067,7 @@ def hist_judge(r, NP, MAXR, NSTEPS, FIRST, CRASH, shrink=False):
 
 
 def hist_case(rep, NP, MAXR, NSTEPS, FIRST, CRASH, prefix, pid=PID, clauses=None, shrink=False):
-    name = f'hist/NP{NP}/maxr{MAXR}/steps{NSTEPS}/first{int(FIRST)}/crash{int(CRASH)}' + ('/shrink' if hist_opts(shrink)[0] else '') + (f'/NL{hist_opts(shrink)[1]}' if hist_opts(shrink)[1] > 1 else '') + ('/interp' if hist_interp(shrink) else '') + (f'/conv{hist_conv(shrink)}' if hist_conv(shrink) else '')
+    name = f'hist/NP{NP}/maxr{MAXR}/steps{NSTEPS}/first{int(FIRST)}/crash{int(CRASH)}' + ('/shrink' if hist_opts(shrink)[0] else '') + (f'/NL{hist_opts(shrink)[1]}' if hist_opts(shrink)[1] > 1 else '') + ('/interp' if hist_interp(shrink) else '') + (f'/conv{hist_conv(shrink)}' if hist_conv(shrink) else '') + ('/fine-level-dt' if isinstance(shrink, dict) and shrink.get('fine_only_dt') else '')
 
     def fn(c):
         r = hist_run(c, NP, MAXR, NSTEPS, FIRST, CRASH, shrink=shrink)
